@@ -4,12 +4,16 @@
     absorbs what follows it until a heading of the same or a lower level; a
     horizontal rule is absorbed only by sections of level <= 2").
     Blocks carry an identifier so that trees can be compared with the
-    implementation's parse tree. *)
+    implementation's parse tree.  Plain content is a paragraph (identified
+    by a number) or a completed list (Model/Lists.v); both are absorbed by
+    every section.  Model/Blocks.v refines the list blocks to list lines. *)
 From Coq Require Import List Arith Bool.
+From WTP Require Model.Lists.
 Import ListNotations.
 
-Inductive blk := H (l id : nat) | T (id : nat) | HR (id : nat).
-Inductive item := IT (id : nat) | IHR (id : nat) | ISec (l id : nat) (ch : list item).
+Inductive payload := PText (id : nat) | PList (n : Lists.lnode).
+Inductive blk := H (l id : nat) | T (p : payload) | HR (id : nat).
+Inductive item := IT (p : payload) | IHR (id : nat) | ISec (l id : nat) (ch : list item).
 
 (** stack machine *)
 Record frame := mk { fl : nat; fid : nat; fch : list item (* reversed *) }.
@@ -28,7 +32,7 @@ Definition hr_pops (f : frame) : bool := 2 <? fl f.
 Definition step (st : frame * list frame) (b : blk) : frame * list frame :=
   let (top, rest) := st in
   match b with
-  | T id => (addc top (IT id), rest)
+  | T p => (addc top (IT p), rest)
   | H l id => let (t', r') := popw (fun f => l <=? fl f) top rest in (mk l id [], t' :: r')
   | HR id => let (t', r') := popw hr_pops top rest in (addc t' (IHR id), r')
   end.
@@ -55,7 +59,7 @@ Fixpoint span {A} (p : A -> bool) (xs : list A) : list A * list A :=
 
 Definition place (b : blk) (forest : list item) : list item :=
   match b with
-  | T id => IT id :: forest
+  | T p => IT p :: forest
   | HR id => IHR id :: forest
   | H l id => let (a, rest) := span (absorbs l) forest in ISec l id a :: rest
   end.
@@ -63,12 +67,18 @@ Definition place (b : blk) (forest : list item) : list item :=
 Definition spec (d : list blk) : list item := fold_right place [] d.
 
 (* comparison for the correspondence check *)
+Definition payload_eqb (a b : payload) : bool :=
+  match a, b with
+  | PText x, PText y => x =? y
+  | PList x, PList y => Lists.lnode_eqb 50 x y
+  | _, _ => false
+  end.
 Fixpoint item_eqb (fuel : nat) (a b : item) : bool :=
   match fuel with
   | O => false
   | S f =>
     match a, b with
-    | IT x, IT y => x =? y
+    | IT x, IT y => payload_eqb x y
     | IHR x, IHR y => x =? y
     | ISec l i c, ISec l' i' c' =>
         (l =? l') && (i =? i') &&
